@@ -12,6 +12,7 @@ import PandoraModel.Lemmas.MCMasked
 import PandoraModel.Lemmas.MCCensus
 import PandoraModel.Lemmas.MCCensusBits
 import PandoraModel.Lemmas.MCGrid
+import PandoraModel.Lemmas.MCCmax
 import PandoraModel.Generated.MatchingCostConsts
 
 namespace Pandora.C02
@@ -225,6 +226,109 @@ theorem costVolume_eq_spec (x : Input) (hwf : wf x = true)
     intro k r' c' hl
     obtain ⟨hl1, hl2, hl3, hl4⟩ := hl
     exact noTiny_of_bool x k r' c' ⟨by omega, by omega⟩ ⟨by omega, by omega⟩ (hz hm k)
+
+/-! ### 2b. `cmax_bound` and `type_measure` -/
+
+/-- the quantity whose integer rounding is stored as `cmax` -/
+def cmaxExact (x : Input) : Rat :=
+  match x.meas with
+  | .sad => sadBound x
+  | .ssd => ssdBound x
+  | .census => (((x.w : Nat) : Rat) * ((x.w : Nat) : Rat))
+  | .zncc => 1
+
+theorem cmax_is_rounding (up : Bool) (x : Input) (hm : x.meas = .sad ∨ x.meas = .ssd) :
+    cmax up x = roundCmax up (cmaxExact x) := by
+  unfold cmax cmaxOf cmaxExact sadBound ssdBound
+  rcases hm with hm | hm <;> simp only [hm]
+
+/-- every numeric cost of the volume is bounded by the un-rounded `cmax` expression (sad, ssd, census) -/
+theorem cost_le_cmaxExact (x : Input) (hwf : wf x = true) (hm : x.meas ≠ .zncc) (r c : Int) (j : Nat)
+    (hj : j < nDisp (gridMin x.dminG x.L.rows x.L.cols) (gridMax x.dmaxG x.L.rows x.L.cols) x.sp)
+    (q : Rat) (hq : costVolume x r c j = .num q) : q ≤ cmaxExact x := by
+  have hsh := shape_of_wf x hwf
+  rw [costVolume_eq_spec x hwf (fun h => absurd h hm) r c j hj] at hq
+  unfold specVolume specCell at hq
+  split at hq
+  · rename_i hc
+    obtain ⟨_, hl, hr, _, _⟩ := (cause_computable_iff x r c _).mp hc
+    unfold cmaxExact
+    cases hmeas : x.meas with
+    | sad =>
+      obtain ⟨q', h1, h2⟩ := sad_value_le x hsh hmeas r c _ hl hr
+      rw [h1] at hq
+      simp only [Cell.num.injEq] at hq
+      simpa [← hq] using h2
+    | ssd =>
+      obtain ⟨q', h1, h2⟩ := ssd_value_le x hsh hmeas r c _ hl hr
+      rw [h1] at hq
+      simp only [Cell.num.injEq] at hq
+      simpa [← hq] using h2
+    | census =>
+      unfold valueSpec at hq
+      simp only [hmeas, Cell.num.injEq] at hq
+      have hw := window_eq x hsh
+      have := winCount_le (half x.w) (fun a b => decide (x.L.px a b > x.L.px r c) !=
+        decide (interpR x.R x.sp (gridMin x.dminG x.L.rows x.L.cols * (x.sp : Int) + j) a b >
+          interpR x.R x.sp (gridMin x.dminG x.L.rows x.L.cols * (x.sp : Int) + j) r c)) r c
+      rw [← hw] at this
+      rw [← hq]
+      simp only
+      exact_mod_cast this
+    | zncc => exact absurd hmeas hm
+  · simp at hq
+
+/-- `cmax_bound` for the code after the proposed fix C02-cmax-ceil (`int(np.ceil(..))`): cost ≤ cmax -/
+theorem cmax_bound_up (x : Input) (hwf : wf x = true) (hm : x.meas = .sad ∨ x.meas = .ssd) (r c : Int) (j : Nat)
+    (hj : j < nDisp (gridMin x.dminG x.L.rows x.L.cols) (gridMax x.dmaxG x.L.rows x.L.cols) x.sp)
+    (q : Rat) (hq : costVolume x r c j = .num q) : q ≤ ((cmax true x : Int) : Rat) := by
+  have hne : x.meas ≠ .zncc := by rcases hm with h | h <;> simp [h]
+  have h1 := cost_le_cmaxExact x hwf hne r c j hj q hq
+  rw [cmax_is_rounding true x hm]
+  exact le_trans h1 Rat.le_ceil
+
+/-- `cmax_bound` for the code as it stands (`int(..)` truncates): cost < cmax + 1, i.e. cost ≤ cmax whenever the
+    un-rounded bound is an integer (integer radiometry at integer disparities); with non-integer radiometry a cost
+    can exceed `cmax` by less than one — finding C02-F3 -/
+theorem cmax_bound_partial (x : Input) (hwf : wf x = true) (hm : x.meas = .sad ∨ x.meas = .ssd) (r c : Int) (j : Nat)
+    (hj : j < nDisp (gridMin x.dminG x.L.rows x.L.cols) (gridMax x.dmaxG x.L.rows x.L.cols) x.sp)
+    (q : Rat) (hq : costVolume x r c j = .num q) : q < ((cmax false x + 1 : Int) : Rat) := by
+  have hne : x.meas ≠ .zncc := by rcases hm with h | h <;> simp [h]
+  have h1 := cost_le_cmaxExact x hwf hne r c j hj q hq
+  rw [cmax_is_rounding false x hm]
+  exact lt_of_le_of_lt h1 (Rat.lt_floor_add_one _)
+
+/-- `cmax_bound`, census: cost ≤ cmax = w² (either rounding) -/
+theorem cmax_bound_census (up : Bool) (x : Input) (hwf : wf x = true) (hm : x.meas = .census) (r c : Int) (j : Nat)
+    (hj : j < nDisp (gridMin x.dminG x.L.rows x.L.cols) (gridMax x.dmaxG x.L.rows x.L.cols) x.sp)
+    (q : Rat) (hq : costVolume x r c j = .num q) : q ≤ ((cmax up x : Int) : Rat) := by
+  have hne : x.meas ≠ .zncc := by simp [hm]
+  have h1 := cost_le_cmaxExact x hwf hne r c j hj q hq
+  have hc : cmax up x = ((x.w * x.w : Nat) : Int) := by
+    unfold cmax cmaxOf roundCmax
+    simp only [hm]
+    have : (((x.w : Nat) : Rat) * ((x.w : Nat) : Rat)) = (((x.w * x.w : Nat) : Int) : Rat) := by push_cast; ring
+    rw [this, Rat.floor_intCast]
+    simp
+  rw [hc]
+  unfold cmaxExact at h1
+  simp only [hm] at h1
+  have : (((x.w : Nat) : Rat) * ((x.w : Nat) : Rat)) = ((((x.w * x.w : Nat) : Int)) : Rat) := by push_cast; ring
+  rw [this] at h1
+  exact h1
+
+/-- the truncated `cmax` of the code can be exceeded: radiometry in quarters, window 1 (finding C02-F3) -/
+theorem cmax_bound_counterexample :
+    ∃ (maxL minL maxR minR : Rat), (cmaxOf false .sad maxL minL maxR minR 1 : Int) = 1 ∧
+      ratAbs (maxL - minR) = 3 / 2 := by
+  refine ⟨7 / 4, 1 / 4, 7 / 4, 1 / 4, ?_, ?_⟩
+  · unfold cmaxOf roundCmax ratMax ratAbs
+    have e : ((if ((7 : Rat) / 4 - 1 / 4 < 0) then -((7 : Rat) / 4 - 1 / 4) else (7 : Rat) / 4 - 1 / 4)) = 3 / 2 := by norm_num
+    simp only [e, le_refl, if_true, Bool.false_eq_true, if_false]
+    have h1 : (1 : Int) ≤ ((3 : Rat) / 2 * (((1 : Nat) : Rat) * ((1 : Nat) : Rat))).floor := Rat.le_floor_iff.mpr (by norm_num)
+    have h2 : ((3 : Rat) / 2 * (((1 : Nat) : Rat) * ((1 : Nat) : Rat))).floor < 2 := Rat.floor_lt_iff.mpr (by norm_num)
+    omega
+  · unfold ratAbs; norm_num
 
 /-! ### 3. Non-vacuity: a concrete input satisfies the hypotheses and has computable and non-computable cells -/
 
